@@ -194,7 +194,12 @@ def safe_repr(v):
         core.disarm()
 
 
-CYCLIC_OPERANDS = {"<*a = 1, _proto_ = itself*>"}
+CYCLIC_OPERANDS = {"<*a = 1, _proto_ = itself*>", "<*_proto_ = cyclic*>",
+                   "[1, itself]"}
+# what replaces a cyclic operand when asking whether the callee has to
+# traverse its argument at all
+TWIN = {"<*a = 1, _proto_ = itself*>": "<*a = 1, f = fn(self) 1*>",
+        "<*_proto_ = cyclic*>": "<**>", "[1, itself]": "[1, 2, 3]"}
 
 
 def judge(o, argnames=()):
@@ -220,6 +225,9 @@ def judge(o, argnames=()):
     return {"kind": "hang", "exc": o[1]}
 
 
+HANG_OPERANDS = {}
+
+
 def explore_calls(chunk):
     agg = core.Agg()
     hangs = {}
@@ -235,9 +243,12 @@ def explore_calls(chunk):
                     continue
             elif len(t) < 2 or t[0] != first:
                 continue
-            if hangs.get(fname, 0) >= 2:
+            if hangs.get(fname, 0) >= 2 or \
+                    any(HANG_OPERANDS.get(a, 0) >= 6 for a in t):
                 continue      # already reported; every further hang costs
-                              # the full wall-clock allowance
+                              # the full wall-clock allowance (an operand
+                              # that made six calls hang is set aside for
+                              # the rest of this worker's jobs)
             variants = [False]
             if len(t) >= 2 and len(set(t)) < len(t):
                 variants.append(True)   # the same object passed twice
@@ -249,6 +260,8 @@ def explore_calls(chunk):
                 if bad:
                     if bad["kind"] == "hang":
                         hangs[fname] = hangs.get(fname, 0) + 1
+                        for a in set(t):
+                            HANG_OPERANDS[a] = HANG_OPERANDS.get(a, 0) + 1
                     break
             if bad:
                 sig = {"callee": fname, **bad}
@@ -259,6 +272,25 @@ def explore_calls(chunk):
                               "value or catchable runtime error",
                               core.show_raw(o), size=len(t) * 100 + sum(
                                   len(x) for x in t))
+            elif o[0] == "host" and o[1] == "RecursionError" and \
+                    CYCLIC_OPERANDS & set(t):
+                # excused only if the callee has to walk its argument: when
+                # the same call on a plain twin of the cyclic operand ends
+                # in a language error, that error was in flight here too
+                # and the host exception replaced it
+                twin = tuple(TWIN.get(a, a) for a in t)
+                o2, _ = s.call(fn, twin)
+                agg.count("steps")
+                if o2[0] == "rt":
+                    agg.violation(
+                        {"callee": fname, "kind": "host",
+                         "exc": "RecursionError",
+                         "site": "while an error was in flight"},
+                        {"kind": "call", "callee": fname, "args": list(t),
+                         "alias": False, "twin": list(twin)},
+                        "the language error the twin call " +
+                        str(list(twin)) + " raises", core.show_raw(o),
+                        size=len(t) * 100 + sum(len(x) for x in t))
             elif o[0] == "rt":
                 key = (fname, safe_repr(o[1]))
                 if key not in wrapped_seen:
@@ -325,12 +357,16 @@ def explore_forms(chunk):
         for t in tuples:
             if nh >= 2:
                 break
+            if any(HANG_OPERANDS.get(a, 0) >= 6 for a in t):
+                continue
             o = run_form(fname, t)
             agg.count("steps")
             agg.cls((fname, o[0]))
             bad = judge(o, t)
             if bad and bad["kind"] == "hang":
                 nh += 1
+                for a in set(t):
+                    HANG_OPERANDS[a] = HANG_OPERANDS.get(a, 0) + 1
             if bad:
                 agg.violation({"callee": "form:" + fname, **bad},
                               {"kind": "form", "form": fname, "src": src,
@@ -377,6 +413,11 @@ def replay(case, verbose=False):
     if verbose:
         print("case:", case)
         print("observed:", core.show_raw(o))
+    if case.get("twin"):
+        o2, _ = s.call(fn, tuple(case["twin"]))
+        if verbose:
+            print("twin:", case["twin"], core.show_raw(o2))
+        return o[0] == "host" and o2[0] == "rt"
     return judge(o, tuple(case["args"])) is not None
 
 
